@@ -24,3 +24,4 @@ import RenetVerif.Lemmas.SrcEquiv.ConnRecv
 import RenetVerif.Lemmas.SrcEquiv.Server
 import RenetVerif.Lemmas.SrcEquiv.NcCodec
 import RenetVerif.Lemmas.SrcEquiv.NcServer
+import RenetVerif.Lemmas.SrcEquiv.NcServerSend
